@@ -245,7 +245,7 @@ func c05AckedByAll(c *Check, P string, r *GCRoles) {
 	lookups := Callers([]*ssa.Function{F}, r.LookupSubs)
 	empty, _ := LenZeroEdges(F, func(v ssa.Value) bool { return AllOrigins(v, ResultOfAny(lookups, 0)) })
 	nclose := 0
-	for _, f := range WithAnon(F) {
+	for _, f := range WithStarted(F) {
 		for _, cl := range CloseSites(f, isDone) {
 			nclose++
 			if f == F {
